@@ -228,7 +228,7 @@ theorem sub_contract (d o : Gen.decomposed192) (t : Int8)
     have he0 : (o.exp - Int16.ofNat j).toInt = d.exp.toInt + k := by
       rw [i16_sub_nat _ _ (by omega) (by omega)]; omega
     have := sub_branch_neg (t := t) (show o.exp.toInt = d.exp.toInt + j + k by omega) he0 hprec rfl hfin
-    simp only [← val_eq, hlt0] at this
+    simp only [← val_eq_zpow, hlt0] at this
     obtain ⟨h1, h2, h3, h4, h5, h6, h7, h8, h9⟩ := this
     refine ⟨fun _ => ⟨h1, h2, h4, h5⟩, fun hc => by omega, h3, ?_, ?_, ?_, ?_⟩
     · rw [min_eq_left (by omega)]; exact h6
@@ -241,7 +241,7 @@ theorem sub_contract (d o : Gen.decomposed192) (t : Int8)
     have he0 : (d.exp - Int16.ofNat j).toInt = o.exp.toInt + k := by
       rw [i16_sub_nat _ _ (by omega) (by omega)]; omega
     have := sub_branch_pos (t := t) (show d.exp.toInt = o.exp.toInt + j + k by omega) he0 hprec rfl hfin
-    simp only [← val_eq, hlt0] at this
+    simp only [← val_eq_zpow, hlt0] at this
     obtain ⟨h1, h2, h3, h4, h5, h5', h6, h7, h8, h9⟩ := this
     refine ⟨fun hc => by omega, fun _ => ⟨h1, h2, h4, h5, h5'⟩, h3, ?_, ?_, ?_, ?_⟩
     · rw [min_eq_right (by omega)]; exact h6
@@ -254,7 +254,7 @@ theorem sub_contract (d o : Gen.decomposed192) (t : Int8)
       simpa [Nat.mod_one] using hfin
     have := sub_branch_neg (t := t) (k := 0) (j := 0)
       (show o.exp.toInt = d.exp.toInt + (0 : Nat) + (0 : Nat) by omega) (by simp) (Or.inl rfl) rfl hfin'
-    simp only [← val_eq, hlt0] at this
+    simp only [← val_eq_zpow, hlt0] at this
     obtain ⟨h1, h2, h3, h4, h5, h6, h7, h8, h9⟩ := this
     refine ⟨fun _ => ⟨h1, h2, h4, h5⟩, fun hc => by omega, h3, ?_, ?_, ?_, ?_⟩
     · rw [min_eq_left (by omega)]; exact h6
